@@ -18,7 +18,7 @@ func (p *Prog) isRejectCtor(fn *ssa.Function) bool {
 		return false
 	}
 	for _, cl := range Calls(fn) {
-		if cal := cl.Common().StaticCallee(); cal != nil && (strings.HasPrefix(cal.Name(), "NewMessageRejectError") || strings.HasPrefix(cal.Name(), "NewBusinessMessageRejectError")) {
+		if cal := cl.Common().StaticCallee(); cal != nil && (strings.HasPrefix(fnName(cal), "NewMessageRejectError") || strings.HasPrefix(fnName(cal), "NewBusinessMessageRejectError")) {
 			return true
 		}
 	}
